@@ -202,7 +202,7 @@ def report(a, seed, mine, results, t0):
     for idx, (c, o) in enumerate(failing):
         k = o['name']
         per_ob[k] = per_ob.get(k, 0) + 1
-        if per_ob[k] > 60 or (o['model'] or {}).get('skipped'):
+        if per_ob[k] > 60 or (o['model'] or {}).get('skipped') or not c.native:
             continue
         wit = [kf['witness'] for kf in known if kf['obligation'] == k]
         cs = case_for(c, o['model'], idx, wit)
@@ -217,7 +217,7 @@ def report(a, seed, mine, results, t0):
     xc_cases = []
     xc_expect = []
     for c, r in zip(mine, results):
-        if c.expect_fail:
+        if c.expect_fail or not c.native:
             continue
         lim = 3 if a.tier == 'quick' else 12
         for s in [x for x in r.samples if not x.get('havocked')][:lim]:
@@ -314,9 +314,11 @@ def report(a, seed, mine, results, t0):
         name = o['name']
         short = name[len(c.name) + 1:] if name.startswith(c.name + '/') else name.split('/')[-1]
         obs = obs_by_id.get(idx)
-        if obs is None and (per_ob.get(name, 0) > 60 or (o['model'] or {}).get('skipped')):
+        if obs is None and c.native and (per_ob.get(name, 0) > 60 or (o['model'] or {}).get('skipped')):
             continue
         okc, why = confirm(c, short, obs)
+        if not c.native:
+            okc, why = False, 'not natively replayable (idealised functions stand for real cryptography)'
         if not okc and c.name in bounded_models:
             # same obligation first, any confirmed failure of the contract as a symptom otherwise
             cands = [x for x in bounded_models[c.name] if x[0]['name'] == name] or bounded_models[c.name]
